@@ -77,7 +77,7 @@ def parse_patterns_tail(ctx: Ctx, rule: str, which: set[str]) -> None:
     GS = repo.const(WP, 'GLOBSTAR')
     ev, paths = tabulate_method(repo, 'glob', 'Glob._parse_patterns', {'flags': BV('sflags')}, [Opaque('patterns'), Opaque('force_negate')],
                                 inline=False, loop_mode='skip')
-    bad_d, bad_n = [], []
+    bad_d, bad_n, bad_u = [], [], []
     for p in paths:
         focus(p)
         d = p.decisions
@@ -108,12 +108,34 @@ def parse_patterns_tail(ctx: Ctx, rule: str, which: set[str]) -> None:
             bad_n.append(f'nodir={d.get("self.nodir")} force_negate={d.get("force_negate")}: {[a[2] for a in apps_n]}')
         if apps_n and apps_p and p.events.index(apps_n[0]) < p.events.index(apps_p[0]):
             pass  # order is immaterial here: the NODIR pattern does not depend on the inclusion list
+        # the automatic switch to nounique (a single inclusion pattern cannot produce duplicates)
+        ND = repo.const('glob', 'NODOTDIR')
+
+        def K_not(a: Any) -> Any:
+            return None if a is None else (not a)
+
+        def K_and(*xs: Any) -> Any:
+            return False if any(x is False for x in xs) else (None if any(x is None for x in xs) else True)
+        single = d.get('len(self.pattern) <= 1', K_not(d.get('len(self.pattern) > 1')))
+        if single is None and 'len(self.pattern) < 2' in d:
+            single = d['len(self.pattern) < 2']
+        want_u = K_and(K_not(d.get('force_negate')), single, K_not(d.get(f'bit:sflags:{ND:x}')), K_not(d.get('self.nounique')),
+                       K_not(K_and(d.get('self.pathlib'), d.get('self.scandotdir'))))
+        st = [e for e in p.events if e[0] == 'store' and e[1] == 'self.nounique']
+        if want_u is None or bool(st) != want_u or (st and st[-1][2] is not True):
+            bad_u.append(f'force_negate={d.get("force_negate")} single={single} NODOTDIR={d.get(f"bit:sflags:{ND:x}")} nounique={d.get("self.nounique")} '
+                         f'pathlib={d.get("self.pathlib")} scandotdir={d.get("self.scandotdir")}: nounique set={bool(st)}')
     if len(paths) < 8:
         raise AnalysisError(f'Glob._parse_patterns: tail table has only {len(paths)} rows')
     if 'negateall-default' in which:
         ctx.ob(rule, 'glob:Glob._parse_patterns/negateall-default', not bad_d, repo.loc('glob', pp.node),
                'not self.pattern and self.npatterns and self.negateall: pattern ← _GlobSplit(self.stars, self.flags | GLOBSTAR).split()',
                f'{len(paths)} rows agree' if not bad_d else sorted(set(bad_d))[0][:200], witness="glob('!a', flags=NEGATE|NEGATEALL) lists everything but a")
+    if 'auto-nounique' in which:
+        ctx.ob(rule, 'glob:Glob._parse_patterns/auto-nounique', not bad_u, repo.loc('glob', pp.node),
+               'self.nounique = True iff not force_negate and len(self.pattern) <= 1 and not self.flags & NODOTDIR and not self.nounique and not (self.pathlib and self.scandotdir)',
+               f'{len(paths)} rows agree' if not bad_u else sorted(set(bad_u))[0][:220],
+               witness="glob(['a', '[a]']) must return `a` once: the shortcut may only apply to a single inclusion pattern")
     if 'nodir-pattern' in which:
         ctx.ob(rule, 'glob:Glob._parse_patterns/nodir-pattern', not bad_n, repo.loc('glob', pp.node),
                'self.nodir and not force_negate: self.npatterns.append(self.re_no_dir)', f'{len(paths)} rows agree' if not bad_n else sorted(set(bad_n))[0][:200],
